@@ -4,7 +4,7 @@ import random
 import numpy as np
 
 from common import Driver, Report, ser_result, wf_failure, lean_obligations, err_class
-from core import Family, Gen, tok_expr
+from core import Family, Gen, tok_expr, enumerate_diagrams, small_signature
 from semantics import IntFunctor, wire_labels
 
 PROP = "C05"
@@ -141,6 +141,28 @@ def run(tier, seed, replay=None):
                         break
                     cur = cur.interchange(i, j, left=l)
                     seq = ("interchange", seq, i, j, l)
+        # ---- exhaustive small scope: ALL diagrams over a fixed 8-box signature (scalar, state,
+        # effect, unary, 1->2, 2->1, daggered endo, swap), domains (), a, a@b, width <= 4,
+        # up to 2 (quick) / 3 (thorough) boxes, with ALL (i, j, left) triples incl. out of range
+        a_, b_ = ("a", 0), ("b", 0)
+        small = enumerate_diagrams(small_signature(), [[], [a_], [a_, b_]], 2 if tier == "quick" else 3, 4)
+        n_small = 0
+        for e in small:
+            d = fams["monoidal"].run(e)
+            n = len(d.boxes)
+            triples = [(i, j, l) for i in range(-1, n + 1) for j in range(-1, n + 1)
+                       for l in (False, True)]
+            lines = ["eval " + tok_expr(("interchange", e, i, j, l)) for i, j, l in triples]
+            answers = drv.ask_many(lines)
+            for (i, j, l), line, model in zip(triples, lines, answers):
+                check_one(rep, "monoidal", fams, e, d, i, j, l, model, rng)
+                rep.case(line, n >= 2 and i != j and 0 <= i < n and 0 <= j < n)
+                n_small += 1
+        rep.extra["exhaustive_small_scope"] = dict(
+            diagrams=len(small), requests=n_small, exhaustive=True,
+            scope="all diagrams over the 8-box signature of core.small_signature, domains (), a, "
+                  "a@b, width <= 4, depth <= %d; all (i, j, left) with i, j in [-1, n]"
+                  % (2 if tier == "quick" else 3))
     finally:
         drv.close()
     return rep.finish()
